@@ -280,7 +280,8 @@ class ModelBuilderSemantics:
         return ModelBuilder.types_defined_in(container)
 
     def _default(self, ast: Any, *args: Any, **kwargs: Any) -> Any:
-        if not args:
+        if not args or not isinstance(args[0], str):
+            # note: rule[1] has parameters, but none that names a type
             return ast
 
         typespec = [mangle(s) for s in args[0].split('::')]
